@@ -43,7 +43,7 @@ class Immutable:
 
         temp = []
         for k, v in kwargs.items():
-            temp.append(type(v))
+            # Hash what `__eq__` compares: the values, not their types (`True == 1`, a `str` subclass equals its `str`).
             temp.append(v)
             super().__setattr__(k, v)
         super().__setattr__('_hash', hash(tuple(temp)))
